@@ -348,6 +348,20 @@ func main() {
 		if err != nil || fmt.Sprint(tiles(col)) != fmt.Sprint(tiles(want)) {
 			c.Failf("collection", "Collection cover %v,%v is not the union %v", tiles(col), err, tiles(want))
 		}
+		// bounds as collection members, degenerate ones (a point's bound) included: the union of the members
+		for _, bm := range []orb.Bound{{Min: a, Max: a}, orb.MultiPoint{a, b}.Bound()} {
+			wantB := tilecover.Bound(bm, z)
+			wantB.Merge(tilecover.Point(b, z))
+			for fi, form := range []orb.Geometry{orb.Collection{bm, b}, orb.Collection{b, orb.Collection{bm}}} {
+				got, err := tilecover.Geometry(form, z)
+				if err != nil || fmt.Sprint(tiles(got)) != fmt.Sprint(tiles(wantB)) {
+					c.Failf("collection", "cover of a collection (form %d) holding the bound %v and the point %v = %v, %v; the union of the member covers is %v", fi, bm, b, tiles(got), err, tiles(wantB))
+				}
+			}
+			if gb, err := tilecover.Geometry(bm, z); err != nil || fmt.Sprint(tiles(gb)) != fmt.Sprint(tiles(tilecover.Bound(bm, z))) || !gb[maptile.At(bm.Min, z)] {
+				c.Failf("bound", "Geometry(%v) = %v, %v differs from Bound() or misses the tile of its corner", bm, tiles(gb), err)
+			}
+		}
 		bb := orb.MultiPoint{a, b}.Bound()
 		bs := tilecover.Bound(bb, z)
 		lo, hi := maptile.At(bb.Min, z), maptile.At(bb.Max, z)
